@@ -132,12 +132,18 @@ Proof.
   - inversion H; reflexivity.
   - inversion H; reflexivity.
   - destruct checkpoint as [c|]; [destruct (N.eqb c 0); [discriminate|]|]; inversion H; reflexivity.
+  - destruct (size s * K <? off + len); [inversion H; reflexivity|].
+    destruct (fst hint); inversion H; reflexivity.
+  - destruct checkpoint as [c|]; [|inversion H; reflexivity].
+    destruct (N.eqb c 0); [discriminate|].
+    destruct (s_picked s c victim); [|inversion H; reflexivity].
+    destruct fail; inversion H; reflexivity.
 Qed.
 
 Lemma c16_step_model : forall K d s o ch d1 x s1 r data prev cur,
   0 < K -> inv K d -> Rel K d s -> Obs K d prev ->
   step true K d o ch = (d1, x) ->
-  spec_step K s o (image K d1 (nf d1)) = Some (s1, r, data) ->
+  spec_step K s o (ores x, image K d1 (nf d1)) = Some (s1, r, data) ->
   Obs K d1 cur -> o_res cur = ores x ->
   c16_step K prev o cur = true.
 Proof.
@@ -176,7 +182,7 @@ Fixpoint in_dom (K : nat) (s : spec) (ops : list op) (os : list obs) : bool :=
   match ops, os with
   | [], [] => true
   | o :: ops', cur :: os' =>
-      match spec_step K s o (o_live cur) with
+      match spec_step K s o (o_res cur, o_live cur) with
       | None => false
       | Some (s1, _, _) => in_dom K s1 ops' os'
       end
@@ -188,7 +194,7 @@ Lemma step_oracle_model : forall (k : obs -> op -> obs -> bool) K rv,
   (forall d s o ch d1 x s1 r data prev cur,
       0 < K -> inv K d -> Rel K d s -> Obs K d prev ->
       step true K d o ch = (d1, x) ->
-      spec_step K s o (image K d1 (nf d1)) = Some (s1, r, data) ->
+      spec_step K s o (ores x, image K d1 (nf d1)) = Some (s1, r, data) ->
       Obs K d1 cur -> o_res cur = ores x -> o_data cur = odata x -> k prev o cur = true) ->
   forall h d s prev, 0 < K -> inv K d -> Rel K d s -> Obs K d prev ->
   in_dom K s (map fst h) (trace true K rv d h) = true ->
@@ -199,11 +205,11 @@ Proof.
   destruct (step true K d o ch) as [d1 x] eqn:Es.
   destruct (observe K rv d1 x) as [d2 ob] eqn:Eo.
   cbn [in_dom step_oracle] in *.
-  destruct (spec_step K s o (o_live ob)) as [[[s1 r] data]|] eqn:Esp; [|discriminate].
-  destruct (spec_step_hint K s o (o_live ob) (image K d1 (nf d1)) s1 r data Esp) as (s1' & Esp').
-  destruct (step_sim K d s o ch d1 x s1' r data HK I R Es Esp') as (I1 & _ & _ & _).
+  destruct (spec_step K s o (o_res ob, o_live ob)) as [[[s1 r] data]|] eqn:Esp; [|discriminate].
+  destruct (spec_step_hint K s o (o_res ob, o_live ob) (ores x, image K d1 (nf d1)) s1 r data Esp) as (s1' & r' & data' & Esp').
+  destruct (step_sim K d s o ch d1 x s1' r' data' HK I R Es Esp') as (I1 & _ & _ & _).
   pose proof (observe_obs K rv d1 x HK I1) as OO. rewrite Eo in OO. destruct OO as (OC & M & Hres & Hdata).
-  rewrite (ob_live _ _ _ OC) in Esp.
+  rewrite (ob_live _ _ _ OC), Hres in Esp.
   destruct (step_sim K d s o ch d1 x s1 r data HK I R Es Esp) as (_ & R1 & _ & _).
   apply andb_true_iff. split.
   - exact (Hk d s o ch d1 x s1 r data prev ob HK I R OP Es Esp OC Hres Hdata).
@@ -330,17 +336,62 @@ Proof.
   intros i Hi Hu Hrm _. exists i. rewrite E1 in Hi. rewrite E2, <- E3. repeat split; try lia; auto.
 Qed.
 
+(** the candidate list of the model obeys the filter stated on observations *)
+Lemma cand_ok_model : forall K d prev cp, Obs K d prev -> names_ok d -> 1 <= nf d ->
+  (forall c, cp = Some c -> c <> 0%N) ->
+  forallb (cand_ok prev cp) (candidates d cp) = true.
+Proof.
+  intros K d prev cp OP N Hnf Hcp. apply forallb_forall. intros name Hin.
+  destruct (cleaner_filter d cp name Hin) as (c & k & -> & Hc0 & Hk & Hnm & R1 & R2 & Hlat).
+  pose proof (Hcp c eq_refl) as Nc.
+  destruct (find_name_spec d c (nf d)) as (Hle & Hcn & _). specialize (Hcn Hc0).
+  assert (Hclt : find_name d c (nf d) < nf d).
+  { destruct (Nat.eq_dec (find_name d c (nf d)) (nf d)) as [E|]; [|lia].
+    exfalso. apply Nc. rewrite <- Hcn, E. apply N. }
+  unfold cand_ok. rewrite (ob_chain _ _ _ OP), map_length, seq_length.
+  rewrite !(pos_of_find d _ N Hnf).
+  assert (Hfk : find_name d name (nf d) = k) by (rewrite <- Hnm; apply find_name_at; [assumption|lia]).
+  rewrite Hfk.
+  rewrite (nth_attr_obs K d prev k OP ltac:(lia)).
+  replace (k - 2) with (k - 1 - 1) by lia. rewrite (nth_attr_obs K d prev (k - 1) OP ltac:(lia)).
+  unfold retained_user in R1, R2. unfold retained_attr. cbn [fst snd]. rewrite R1, R2.
+  destruct (Nat.leb_spec 2 k); [|lia]. destruct (Nat.ltb_spec k (find_name d c (nf d))); [|lia].
+  destruct (Nat.eqb_spec (find_name d c (nf d)) 0); [contradiction|].
+  destruct (Nat.ltb_spec (S k) (nf d)); [reflexivity|]. specialize (Hlat Hclt). lia.
+Qed.
+
+(** both directions of "the retained user-created snapshots are the same, with the same images", for a
+    state that differs from [d] only in the Removed mark of member [i], which is not retained in [d] *)
+Lemma users_kept_marked : forall K d i a b victim, Obs K d a -> Obs K (mark d i) b -> names_ok d -> 1 <= nf d ->
+  retained_user d i = false ->
+  users_kept a victim (o_chain b) (o_attr b) (o_snaps b) = true /\
+  users_kept b victim (o_chain a) (o_attr a) (o_snaps a) = true.
+Proof.
+  intros K d i a b victim OA OB N Hnf Hri. split.
+  - rewrite (ob_chain _ _ _ OB), (ob_attr _ _ _ OB), (ob_snaps _ _ _ OB).
+    apply (users_kept_same K d (mark d i) a victim OA N Hnf); auto.
+    intros k Hk. cbn [mark rmd] in Hk. destruct (Nat.eq_dec k i) as [->|Hne];
+      [rewrite fupd_eq in Hk; discriminate|now rewrite fupd_neq in Hk].
+  - rewrite (ob_chain _ _ _ OA), (ob_attr _ _ _ OA), (ob_snaps _ _ _ OA).
+    apply (users_kept_seq K (mark d i) d b victim (nf d) 1 (nf d - 1) OB N ltac:(lia)).
+    intros k Hk Hu Hrm _. exists k. cbn [mark nf nm usr rmd].
+    assert (Hki : k <> i).
+    { intro E. subst k. unfold retained_user in Hri. rewrite Hu, Hrm in Hri. discriminate. }
+    rewrite fupd_neq by assumption. repeat split; try lia; auto.
+Qed.
+
 Lemma c11_step_model : forall K d s o ch d1 x s1 r data prev cur,
   0 < K -> inv K d -> Rel K d s -> Obs K d prev ->
   step true K d o ch = (d1, x) ->
-  spec_step K s o (image K d1 (nf d1)) = Some (s1, r, data) ->
+  spec_step K s o (ores x, image K d1 (nf d1)) = Some (s1, r, data) ->
   Obs K d1 cur -> o_res cur = ores x -> o_data cur = odata x ->
   c11_step prev o cur = true.
 Proof.
   intros K d s o ch d1 x s1 r data prev cur HK I R OP Hstep Hspec OC Hres Hdata.
   pose proof (inv_wf _ _ I) as W. pose proof (wf_nf _ _ W) as Hnf.
   pose proof (inv_names _ _ I) as N.
-  destruct o as [off wdata|off len|name user|name|src dst|name|name|name|pre|pre|pb|nb| |cp];
+  pose proof (step_sim K d s o ch d1 x s1 r data HK I R Hstep Hspec) as (I1 & _).
+  destruct o as [off wdata|off len|name user|name|src dst|name|name|name|pre|pre|pb|nb| |cp|off len fi|cp victim fail];
     try reflexivity; cbn [c11_step step spec_step] in *.
   - (* PrepRemove *)
     rewrite (protected_name_spec K d prev name OP N Hnf).
@@ -464,6 +515,89 @@ Proof.
     destruct (Nat.leb_spec 2 k); [|lia]. destruct (Nat.ltb_spec k (find_name d c (nf d))); [|lia].
     destruct (Nat.eqb_spec (find_name d c (nf d)) 0); [contradiction|].
     destruct (Nat.ltb_spec (S k) (nf d)); [reflexivity|]. specialize (Hlat Hclt). lia.
+  - (* Clean: one pass of the background cleaner *)
+    assert (Hcp : forall c, cp = Some c -> c <> 0%N).
+    { intros c -> E0. subst c. cbn in Hspec. discriminate. }
+    destruct (clean d cp victim fail) as [dc rc] eqn:Ec.
+    injection Hstep as Hd Hx; subst d1 x. cbn [odata ores] in *.
+    rewrite Hdata, (cand_ok_model K d prev cp OP N Hnf Hcp). cbn [andb].
+    (* the state did not change: nothing picked *)
+    assert (Hsame : dc = d -> existsb (N.eqb victim) (candidates d cp) = false ->
+      listN_eqb (o_live cur) (o_live prev) && users_kept prev victim (o_chain cur) (o_attr cur) (o_snaps cur)
+      && users_kept cur victim (o_chain prev) (o_attr prev) (o_snaps prev)
+      && (if fail || negb (existsb (N.eqb victim) (candidates d cp)) then listN_eqb (o_chain cur) (o_chain prev)
+          else listN_eqb (o_chain cur) (remove_name (o_chain prev) victim)) = true).
+    { intros -> Ep. rewrite Ep. cbn [negb]. rewrite orb_true_r.
+      rewrite (ob_live _ _ _ OC), (ob_live _ _ _ OP), (ob_chain _ _ _ OC), (ob_chain _ _ _ OP), !listN_eqb_refl.
+      rewrite andb_true_r. cbn [andb]. apply andb_true_iff. split.
+      - rewrite (ob_attr _ _ _ OC), (ob_snaps _ _ _ OC). apply (users_kept_same K d d prev victim OP N Hnf); auto.
+      - rewrite (ob_attr _ _ _ OP), (ob_snaps _ _ _ OP). apply (users_kept_same K d d cur victim OC N Hnf); auto. }
+    rewrite <- !andb_assoc in Hsame |- *.
+    destruct (clean_cases d cp victim fail) as [(Ep & E)|(Ep & HC)]; rewrite Ec in *.
+    { injection E as Hdc _. now apply Hsame. }
+    destruct cp as [c|]; [|cbn in Ep; discriminate]. pose proof (Hcp c eq_refl) as Nc.
+    pose proof Ep as Ep'. apply existsb_exists in Ep'. destruct Ep' as (v' & Hin & Ev). apply N.eqb_eq in Ev. subst v'.
+    destruct (picked_index d c victim N Nc Hin) as (H2 & Hlt & Hn & Hnm & Hv & R1 & R2).
+    destruct HC as [(E & Hc)|(_ & _ & E)]; [exfalso; lia|].
+    set (i := find_name d victim (nf d)) in *. rewrite Ep. cbn [negb]. rewrite orb_false_r.
+    destruct fail; injection E as -> _.
+    + (* the merge failed: marked Removed, still a member *)
+      destruct (users_kept_marked K d i prev cur victim OP OC N Hnf R1) as (U1 & U2). rewrite U1, U2.
+      rewrite (ob_live _ _ _ OC), (ob_live _ _ _ OP), (ob_chain _ _ _ OC), (ob_chain _ _ _ OP).
+      change (nf (mark d i)) with (nf d). change (nm (mark d i)) with (nm d). rewrite image_mark, !listN_eqb_refl.
+      reflexivity.
+    + (* merged and removed: as a deletion *)
+      assert (Hpar : usr d (i - 1) = true -> rmd d (i - 1) = true).
+      { intros Hu. unfold retained_user in R2. rewrite Hu in R2. cbn in R2. now apply negb_false_iff in R2. }
+      pose proof N as (Nh & Nz & Ninj).
+      set (dm := merged (mark d i) i) in *.
+      assert (Enf : nf dm = nf d - 1) by reflexivity.
+      assert (Hattr : forall k, nm dm k = (if k <? i then nm d k else nm d (S k)) /\
+                                usr dm k = (if k <? i then usr d k else usr d (S k)) /\
+                                rmd dm k = (if k <? i then rmd (mark d i) k else rmd (mark d i) (S k))).
+      { intros k. unfold dm, merged, remove_index, coalesce_ix, shift_out. cbn [nm usr rmd set_fl mark]. auto. }
+      rewrite (ob_live _ _ _ OC), (ob_live _ _ _ OP).
+      assert (Hlive : image K dm (nf dm) = image K d (nf d)).
+      { rewrite Enf. apply image_ext2; [reflexivity|]. intros b. unfold dm.
+        rewrite merged_top_high by (cbn [mark nf]; lia). replace (S (nf d - 1)) with (nf d) by lia. reflexivity. }
+      rewrite Hlive, listN_eqb_refl. cbn [andb].
+      assert (Hfirst : forall j, 1 <= j < i -> nm d j <> victim).
+      { intros j Hj Hjn. assert (j = i) by (apply Ninj; [lia|lia|congruence]). lia. }
+      assert (Hchain : map (nm dm) (seq 1 (nf d - 1)) = map (fun k => if k <? i then nm d k else nm d (S k)) (seq 1 (nf d - 1))).
+      { apply map_ext. intros k. apply Hattr. }
+      assert (Hc3 : listN_eqb (o_chain cur) (remove_name (o_chain prev) victim) = true).
+      { rewrite (ob_chain _ _ _ OC), (ob_chain _ _ _ OP).
+        rewrite (remove_name_seq d victim i (nf d) 1 ltac:(lia) Hnm Hfirst). rewrite Enf, Hchain. apply listN_eqb_refl. }
+      rewrite Hc3, andb_true_r. apply andb_true_iff. split.
+      * rewrite (ob_chain _ _ _ OC), (ob_attr _ _ _ OC), (ob_snaps _ _ _ OC), Enf.
+        apply (users_kept_seq K d dm prev victim (nf d - 1) 1 (nf d - 1 - 1) OP N ltac:(lia)).
+        intros k Hk Hu Hrm Hnv. destruct (Hattr k) as (F1 & F2 & F3). rewrite F1, F2 in *. rewrite F3 in Hrm.
+        destruct (Nat.ltb_spec k i) as [Hlt'|Hge].
+        -- exists k. cbn [mark rmd] in Hrm. rewrite fupd_neq in Hrm by lia.
+           destruct (Nat.eq_dec k (i - 1)) as [Ek|Nk].
+           ++ exfalso. subst k. rewrite (Hpar Hu) in Hrm. discriminate.
+           ++ repeat split; try lia; try assumption.
+              symmetry. apply image_ext2; [reflexivity|]. intros b. unfold dm. rewrite merged_top_low by lia. reflexivity.
+        -- exists (S k). cbn [mark rmd] in Hrm. rewrite fupd_neq in Hrm by lia.
+           repeat split; try lia; try assumption.
+           symmetry. apply image_ext2; [reflexivity|]. intros b. unfold dm. rewrite merged_top_high by lia. reflexivity.
+      * rewrite (ob_chain _ _ _ OP), (ob_attr _ _ _ OP), (ob_snaps _ _ _ OP).
+        apply (users_kept_seq K dm d cur victim (nf d) 1 (nf d - 1) OC (inv_names _ _ I1) ltac:(lia)).
+        intros k Hk Hu Hrm Hnv.
+        assert (Hki : k <> i) by (intro E; subst k; contradiction).
+        assert (Hkp : k <> i - 1).
+        { intro E. subst k. rewrite (Hpar Hu) in Hrm. discriminate. }
+        destruct (Nat.ltb_spec k i) as [Hlt'|Hge].
+        -- exists k. destruct (Hattr k) as (F1 & F2 & F3). rewrite F1, F2, F3, Enf.
+           destruct (Nat.ltb_spec k i); [|lia]. cbn [mark rmd]. rewrite fupd_neq by lia.
+           repeat split; try lia; try assumption.
+           apply image_ext2; [reflexivity|]. intros b. unfold dm. rewrite merged_top_low by lia. reflexivity.
+        -- exists (k - 1). destruct (Hattr (k - 1)) as (F1 & F2 & F3). rewrite F1, F2, F3, Enf.
+           destruct (Nat.ltb_spec (k - 1) i); [lia|]. replace (S (k - 1)) with k by lia.
+           cbn [mark rmd]. rewrite fupd_neq by lia.
+           repeat split; try lia; try assumption.
+           apply image_ext2; [reflexivity|]. intros b. unfold dm. rewrite merged_top_high by lia.
+           replace (S (k - 1)) with k by lia. reflexivity.
 Qed.
 
 Theorem c11_oracle_model : forall K nb p rv (h : list (op * list bool)), 0 < K ->
@@ -484,3 +618,27 @@ Qed.
 Example demo_in_dom :
   in_dom 4 (spec0 (mkcfg 4 4 true true)) (map fst demo_history) (trace true 4 true (init 4 true) demo_history) = true.
 Proof. vm_compute. reflexivity. Qed.
+
+(** non-vacuity for the two fault events: reads while file 1 / 2 / a file outside the chain cannot be read
+    (fails when a block of the request is served from it, otherwise returns the written data), and passes of
+    the cleaner with checkpoint 5 (candidates: only 4 -- 2 is a retained user-created snapshot, 3 would
+    merge into it): the merge fails (4 stays, marked Removed), the implementation's pick 3 is not a
+    candidate (nothing happens), the merge succeeds (4 leaves the chain), nothing left to clean.
+    The history is inside the domain, so every oracle is checked at every step. *)
+Definition fault_history : list (op * list bool) :=
+  [(Write 0 (repeat 1%N 4), []); (Snap 1%N false, []); (Write 2 (repeat 2%N 1), []);
+   (ReadFault 0 2 1, []); (ReadFault 2 1 1, []); (ReadFault 0 3 2, []); (ReadFault 0 2 2, []); (ReadFault 0 4 3, []);
+   (Snap 2%N true, []); (Write 4 (repeat 3%N 1), []); (Snap 3%N false, []); (Write 5 (repeat 4%N 1), []);
+   (Snap 4%N false, []); (Write 6 (repeat 5%N 1), []); (Snap 5%N false, []); (Write 7 (repeat 6%N 1), []);
+   (Clean (Some 5%N) 4%N true, []); (Clean (Some 5%N) 3%N false, []); (Clean (Some 5%N) 4%N false, []);
+   (Clean (Some 5%N) 2%N false, []); (Clean None 4%N false, []); (Read 0 8, [])].
+
+Example fault_demo :
+  let tr := trace true 1 false (init 8 false) fault_history in
+  in_dom 1 (spec0 (mkcfg 1 8 false false)) (map fst fault_history) tr = true /\
+  map (fun o => (o_res o, o_data o)) (firstn 5 (skipn 3 tr)) =
+    [(RErr, []); (ROk, [2]); (RErr, []); (ROk, [1; 1]); (ROk, [1; 1; 2; 1])]%N /\
+  map (fun o => (o_res o, o_chain o)) (firstn 4 (skipn 16 tr)) =
+    [(RErr, [1; 2; 3; 4; 5; 0]); (ROk, [1; 2; 3; 4; 5; 0]); (ROk, [1; 2; 3; 5; 0]); (ROk, [1; 2; 3; 5; 0])]%N /\
+  o_data (nth 21 tr (obs0 (mkcfg 1 8 false false))) = [1; 1; 2; 1; 3; 4; 5; 6]%N.
+Proof. vm_compute. repeat split; reflexivity. Qed.
